@@ -95,6 +95,19 @@ def gen(run):
             scs.append(scenario(store_kind=kind, content=[], ops=[reg(app, rb(rng, 32), h), auth(app, rb(rng, 32), h, 1, 0x01, 3),
                                                                  reg(app, rb(rng, 32), h), auth(app, rb(rng, 32), h, 2, 0x01, 3),
                                                                  reg(app, rb(rng, 32), h), auth(app, rb(rng, 32), h, 3, 0x05, 8)]))
+    # several key handles of ONE application (every U2F credential is stored without a user handle - they are different credentials),
+    # and every boundary length of the key handle: each registration succeeds and each handle authenticates afterwards
+    for kind in CONTRACT_STORES + MEMORY_STORES:
+        if kind in ("option",):
+            continue
+        app = rb(rng, 32)
+        hs = [rb(rng, 24), rb(rng, 16), rb(rng, 32)]
+        ops = [reg(app, rb(rng, 32), h) for h in hs] + [auth(app, rb(rng, 32), h, 0x01020304, 0x01, 3) for h in hs]
+        scs.append(scenario(store_kind=kind, content=[], ops=ops))
+    for kind in ("option", "ref", "memory"):
+        for hl in (0, 1, 15, 16, 127, 128, 254, 255):
+            app, h = rb(rng, 32), rb(rng, hl)
+            scs.append(scenario(store_kind=kind, content=[], ops=[reg(app, rb(rng, 32), h), auth(app, rb(rng, 32), h, 0xFF000001, 0x05, 3)]))
     return scs
 
 
